@@ -203,6 +203,7 @@ type world struct {
 	domainSets  []domainset.Config
 	prefixSets  []map[string]string
 	cur         *ask
+	lastCode    string
 	lookups     int
 	strayLookup string
 	res         *vio.Result
@@ -592,6 +593,18 @@ func (w *world) call(r *router.Router, a *ask) (got string, detail string) {
 			c = uc
 		}
 	}
+	switch router.DialResultCodeFromError(err) {
+	case conn.DialResultCodeSuccess:
+		w.lastCode = "Success"
+	case conn.DialResultCodeEACCES:
+		w.lastCode = "EACCES"
+	case conn.DialResultCodeErrDomainNameLookup:
+		w.lastCode = "ErrDomainNameLookup"
+	case conn.DialResultCodeErrOther:
+		w.lastCode = "ErrOther"
+	default:
+		w.lastCode = "?"
+	}
 	switch {
 	case err == nil && c != nil:
 		fc, ok := c.(*fakeClient)
@@ -669,6 +682,7 @@ func (w *world) runCase(ci int, mc *modelCase) {
 		enc := mc.Outs[ai]
 		soft := strings.HasPrefix(enc, "?")
 		enc = strings.TrimPrefix(enc, "?")
+		enc, errClass, _ := strings.Cut(enc, "/")
 		want, alt, hasAlt := strings.Cut(enc, "~")
 		before := w.lookups
 		got, detail := w.call(r, a)
@@ -686,6 +700,18 @@ func (w *world) runCase(ci int, mc *modelCase) {
 				Text: "a request to an IP address caused a name lookup"})
 		}
 		res.Count("out/"+w.kindOf(got), 1)
+		// router.DialResultCodeFromError (what the relay answers the client with); not a statement of C09
+		if got == "error" && errClass != "" && (got == want || hasAlt && got == alt) {
+			if code := map[string]string{"dns": "ErrDomainNameLookup", "other": "ErrOther"}[errClass]; code != w.lastCode {
+				res.DriftNote(vio.Finding{Key: "router.error/dial-code", Behaviour: ci, Step: ai, Expected: code, Observed: w.lastCode,
+					Text: fmt.Sprintf("DialResultCodeFromError: model %s, code %s for %s", code, w.lastCode, detail)})
+			}
+			res.Count("dialcode/"+w.lastCode, 1)
+		}
+		if got == "rejected" && w.lastCode != "EACCES" {
+			res.DriftNote(vio.Finding{Key: "router.error/dial-code", Behaviour: ci, Step: ai, Expected: "EACCES", Observed: w.lastCode,
+				Text: "DialResultCodeFromError(ErrRejected) is not EACCES"})
+		}
 		res.Seen(shapeKey + ">" + w.kindOf(want) + "/" + strconv.FormatBool(w.lookups != before))
 		if got == want {
 			continue
